@@ -7,6 +7,7 @@ pub fn main(mode: &str, args: &[String]) -> i32 {
         "execd" => execd(args),
         "c11" => c11(args),
         "tr" => test_runner(args),
+        "c12" => c12(args),
         other => {
             eprintln!("vworker: unknown mode {other:?}");
             2
@@ -158,5 +159,20 @@ fn test_runner(args: &[String]) -> i32 {
     }
     let b = &v["build"];
     TestRunner::default().build(build_cfg(&b["cfg"]), |ctx| run_steps(ctx, b["steps"].as_array().unwrap()));
+    0
+}
+
+/// C12: args = [root, "struct"|"trait", ops json, names]; runs the operation(s) on the prepared state under the shim
+fn c12(args: &[String]) -> i32 {
+    use crate::layermodel::make_context;
+    use crate::props::{c01, c02};
+    let root = std::path::PathBuf::from(&args[0]);
+    let ops: Value = serde_json::from_str(&args[2]).expect("ops json");
+    let n: usize = args[3].parse().unwrap_or(3);
+    let names: Vec<&str> = c01::NAMES[..n.min(5)].to_vec();
+    let bc = make_context(&root);
+    let side = root.join("side");
+    let r = if args[1] == "struct" { c01::apply_ops(&bc, &c01::history_from_json(&ops), &names, &side) } else { c02::apply_ops_named(&bc, &c02::history_from_json(&ops), &side, &names) };
+    println!("{}", serde_json::json!({"ok": r.is_ok(), "err": r.err()}));
     0
 }
